@@ -31,20 +31,13 @@ pub(crate) struct OutDesc {
     pub calls: u32,
     pub last_ptr: usize,
     pub last_len: u32,
-    pub data: [u8; 16],
 }
+/// records what it is handed (the bytes themselves stay in the caller's window, where the harness reads them)
 pub(crate) unsafe extern "C" fn out_cb(desc: *mut core::ffi::c_void, buf: *mut u8, len: u32) -> i32 {
     let d = unsafe { &mut *(desc as *mut OutDesc) };
     d.calls += 1;
     d.last_ptr = buf as usize;
     d.last_len = len;
-    let mut i = 0;
-    while i < 16 {
-        if (i as u32) < len && (d.total as usize + i) < 16 {
-            d.data[d.total as usize + i] = unsafe { *buf.add(i) };
-        }
-        i += 1;
-    }
     d.total += len;
     0
 }
@@ -52,25 +45,27 @@ pub(crate) unsafe extern "C" fn out_cb(desc: *mut core::ffi::c_void, buf: *mut u
 const DBASE: [u32; 30] = [1, 2, 3, 4, 5, 7, 9, 13, 17, 25, 33, 49, 65, 97, 129, 193, 257, 385, 513, 769, 1025, 1537, 2049, 3073, 4097, 6145, 8193, 12289, 16385, 24577];
 const DEXT: [u32; 30] = [0, 0, 0, 0, 1, 1, 2, 2, 3, 3, 4, 4, 5, 5, 6, 6, 7, 7, 8, 8, 9, 9, 10, 10, 11, 11, 12, 12, 13, 13];
 
-fn back_instance<const NP: usize, const NLIT: usize>(prefix: [u8; NP], dsym: usize) {
+fn back_instance<const NP: usize, const NLIT: usize, const NSYM: usize>(prefix: [u8; NP], dsym: usize) {
     let mut input = [0u8; 16];
     let mut k = 0;
     while k < NP {
         input[k] = prefix[k];
         k += 1;
     }
-    let s0: u8 = kani::any();
-    let s1: u8 = kani::any();
+    // just enough symbolic bytes to carry every value of the extra bits (fewer than 8 bits are left over, so at most
+    // one more 7-bit symbol can be decoded afterwards)
+    let s0: u8 = if NSYM >= 1 { kani::any() } else { 0 };
+    let s1: u8 = if NSYM >= 2 { kani::any() } else { 0 };
     input[NP] = s0;
     input[NP + 1] = s1;
-    let n_in = (NP + 2) as u32;
+    let n_in = (NP + NSYM) as u32;
     let mut win = [0xEEu8; 256];
     let mut state = State::new(&[], Writer::new(&mut []));
     state.window = unsafe { Window::from_raw_parts(win.as_mut_ptr(), 256) };
     state.wbits = 8;
     state.flags.update(Flags::SANE, true);
     let mut ind = InDesc { ptr: input.as_ptr(), len: n_in, first: n_in, calls: 0 };
-    let mut outd = OutDesc { total: 0, calls: 0, last_ptr: 0, last_len: 0, data: [0; 16] };
+    let mut outd = OutDesc { total: 0, calls: 0, last_ptr: 0, last_len: 0 };
     let mut strm = typed_stream(unsafe { &mut *(&mut state as *mut State) });
     let rc = unsafe {
         back(
@@ -102,10 +97,11 @@ fn back_instance<const NP: usize, const NLIT: usize>(prefix: [u8; NP], dsym: usi
         } else {
             // in-window stream: the bytes inflate would produce (LZ77 semantics)
             assert!(outd.total as usize >= NLIT + 3);
+            assert!(outd.last_len == outd.total, "one delivery, starting at the window base");
             let mut i = 0;
             while i < NLIT + 3 {
-                let e = if i < NLIT { 0x90 + i as u8 } else { outd.data[i - dist] };
-                assert!(outd.data[i] == e);
+                let e = if i < NLIT { 0x90 + i as u8 } else { win[i - dist] };
+                assert!(win[i] == e);
                 i += 1;
             }
         }
@@ -119,7 +115,7 @@ fn back_instance<const NP: usize, const NLIT: usize>(prefix: [u8; NP], dsym: usi
 }
 
 macro_rules! kb1_harness {
-    ($name:ident, $np:expr, $nlit:expr, $prefix:expr, $dsym:expr) => {
+    ($name:ident, $np:expr, $nlit:expr, $nsym:expr, $prefix:expr, $dsym:expr) => {
         #[kani::proof]
         #[kani::unwind(5)]
         #[kani::stub(crate::inflate::inftrees::inflate_table, stub_table_unreachable)]
@@ -129,47 +125,148 @@ macro_rules! kb1_harness {
         #[kani::stub(crate::inflate::infback::inflate_fast_back, stub_fast_back_unreachable)]
         #[kani::stub(<[u16]>::fill, stub_fill_unreachable)]
         fn $name() {
-            back_instance::<$np, $nlit>($prefix, $dsym);
+            back_instance::<$np, $nlit, $nsym>($prefix, $dsym);
         }
     };
 }
-kb1_harness!(kb1_back_lit1_d0, 3, 1, [0x9b, 0x00, 0x04], 0);
-kb1_harness!(kb1_back_lit1_d1, 3, 1, [0x9b, 0x00, 0x84], 1);
-kb1_harness!(kb1_back_lit1_d2, 3, 1, [0x9b, 0x00, 0x44], 2);
-kb1_harness!(kb1_back_lit1_d3, 3, 1, [0x9b, 0x00, 0xc4], 3);
-kb1_harness!(kb1_back_lit1_d4, 3, 1, [0x9b, 0x00, 0x24], 4);
-kb1_harness!(kb1_back_lit1_d5, 3, 1, [0x9b, 0x00, 0xa4], 5);
-kb1_harness!(kb1_back_lit1_d6, 3, 1, [0x9b, 0x00, 0x64], 6);
-kb1_harness!(kb1_back_lit1_d7, 3, 1, [0x9b, 0x00, 0xe4], 7);
-kb1_harness!(kb1_back_lit1_d8, 3, 1, [0x9b, 0x00, 0x14], 8);
-kb1_harness!(kb1_back_lit1_d9, 3, 1, [0x9b, 0x00, 0x94], 9);
-kb1_harness!(kb1_back_lit1_d10, 3, 1, [0x9b, 0x00, 0x54], 10);
-kb1_harness!(kb1_back_lit1_d11, 3, 1, [0x9b, 0x00, 0xd4], 11);
-kb1_harness!(kb1_back_lit1_d12, 3, 1, [0x9b, 0x00, 0x34], 12);
-kb1_harness!(kb1_back_lit1_d13, 3, 1, [0x9b, 0x00, 0xb4], 13);
-kb1_harness!(kb1_back_lit1_d14, 3, 1, [0x9b, 0x00, 0x74], 14);
-kb1_harness!(kb1_back_lit1_d15, 3, 1, [0x9b, 0x00, 0xf4], 15);
-kb1_harness!(kb1_back_lit1_d16, 3, 1, [0x9b, 0x00, 0x0c], 16);
-kb1_harness!(kb1_back_lit1_d17, 3, 1, [0x9b, 0x00, 0x8c], 17);
-kb1_harness!(kb1_back_lit1_d18, 3, 1, [0x9b, 0x00, 0x4c], 18);
-kb1_harness!(kb1_back_lit1_d19, 3, 1, [0x9b, 0x00, 0xcc], 19);
-kb1_harness!(kb1_back_lit1_d20, 3, 1, [0x9b, 0x00, 0x2c], 20);
-kb1_harness!(kb1_back_lit1_d21, 3, 1, [0x9b, 0x00, 0xac], 21);
-kb1_harness!(kb1_back_lit1_d22, 3, 1, [0x9b, 0x00, 0x6c], 22);
-kb1_harness!(kb1_back_lit1_d23, 3, 1, [0x9b, 0x00, 0xec], 23);
-kb1_harness!(kb1_back_lit1_d24, 3, 1, [0x9b, 0x00, 0x1c], 24);
-kb1_harness!(kb1_back_lit1_d25, 3, 1, [0x9b, 0x00, 0x9c], 25);
-kb1_harness!(kb1_back_lit1_d26, 3, 1, [0x9b, 0x00, 0x5c], 26);
-kb1_harness!(kb1_back_lit1_d27, 3, 1, [0x9b, 0x00, 0xdc], 27);
-kb1_harness!(kb1_back_lit1_d28, 3, 1, [0x9b, 0x00, 0x3c], 28);
-kb1_harness!(kb1_back_lit1_d29, 3, 1, [0x9b, 0x00, 0xbc], 29);
-kb1_harness!(kb1_back_lit1_d30, 3, 1, [0x9b, 0x00, 0x7c], 30);
-kb1_harness!(kb1_back_lit1_d31, 3, 1, [0x9b, 0x00, 0xfc], 31);
-kb1_harness!(kb1_back_lit9_d0, 12, 9, [0x9b, 0x30, 0x71, 0xd2, 0xe4, 0x29, 0x53, 0xa7, 0x4d, 0x9f, 0x01, 0x04], 0);
-kb1_harness!(kb1_back_lit9_d1, 12, 9, [0x9b, 0x30, 0x71, 0xd2, 0xe4, 0x29, 0x53, 0xa7, 0x4d, 0x9f, 0x01, 0x84], 1);
-kb1_harness!(kb1_back_lit9_d2, 12, 9, [0x9b, 0x30, 0x71, 0xd2, 0xe4, 0x29, 0x53, 0xa7, 0x4d, 0x9f, 0x01, 0x44], 2);
-kb1_harness!(kb1_back_lit9_d3, 12, 9, [0x9b, 0x30, 0x71, 0xd2, 0xe4, 0x29, 0x53, 0xa7, 0x4d, 0x9f, 0x01, 0xc4], 3);
-kb1_harness!(kb1_back_lit9_d4, 12, 9, [0x9b, 0x30, 0x71, 0xd2, 0xe4, 0x29, 0x53, 0xa7, 0x4d, 0x9f, 0x01, 0x24], 4);
-kb1_harness!(kb1_back_lit9_d5, 12, 9, [0x9b, 0x30, 0x71, 0xd2, 0xe4, 0x29, 0x53, 0xa7, 0x4d, 0x9f, 0x01, 0xa4], 5);
-kb1_harness!(kb1_back_lit9_d6, 12, 9, [0x9b, 0x30, 0x71, 0xd2, 0xe4, 0x29, 0x53, 0xa7, 0x4d, 0x9f, 0x01, 0x64], 6);
-kb1_harness!(kb1_back_lit9_d7, 12, 9, [0x9b, 0x30, 0x71, 0xd2, 0xe4, 0x29, 0x53, 0xa7, 0x4d, 0x9f, 0x01, 0xe4], 7);
+kb1_harness!(kb1_back_lit1_d0, 3, 1, 0, [0x9b, 0x00, 0x04], 0);
+kb1_harness!(kb1_back_lit1_d1, 3, 1, 0, [0x9b, 0x00, 0x84], 1);
+kb1_harness!(kb1_back_lit1_d2, 3, 1, 0, [0x9b, 0x00, 0x44], 2);
+kb1_harness!(kb1_back_lit1_d3, 3, 1, 0, [0x9b, 0x00, 0xc4], 3);
+kb1_harness!(kb1_back_lit1_d4, 3, 1, 1, [0x9b, 0x00, 0x24], 4);
+kb1_harness!(kb1_back_lit1_d5, 3, 1, 1, [0x9b, 0x00, 0xa4], 5);
+kb1_harness!(kb1_back_lit1_d6, 3, 1, 1, [0x9b, 0x00, 0x64], 6);
+kb1_harness!(kb1_back_lit1_d7, 3, 1, 1, [0x9b, 0x00, 0xe4], 7);
+kb1_harness!(kb1_back_lit1_d8, 3, 1, 1, [0x9b, 0x00, 0x14], 8);
+kb1_harness!(kb1_back_lit1_d9, 3, 1, 1, [0x9b, 0x00, 0x94], 9);
+kb1_harness!(kb1_back_lit1_d10, 3, 1, 1, [0x9b, 0x00, 0x54], 10);
+kb1_harness!(kb1_back_lit1_d11, 3, 1, 1, [0x9b, 0x00, 0xd4], 11);
+kb1_harness!(kb1_back_lit1_d12, 3, 1, 1, [0x9b, 0x00, 0x34], 12);
+kb1_harness!(kb1_back_lit1_d13, 3, 1, 1, [0x9b, 0x00, 0xb4], 13);
+kb1_harness!(kb1_back_lit1_d14, 3, 1, 1, [0x9b, 0x00, 0x74], 14);
+kb1_harness!(kb1_back_lit1_d15, 3, 1, 1, [0x9b, 0x00, 0xf4], 15);
+kb1_harness!(kb1_back_lit1_d16, 3, 1, 1, [0x9b, 0x00, 0x0c], 16);
+kb1_harness!(kb1_back_lit1_d17, 3, 1, 1, [0x9b, 0x00, 0x8c], 17);
+kb1_harness!(kb1_back_lit1_d18, 3, 1, 1, [0x9b, 0x00, 0x4c], 18);
+kb1_harness!(kb1_back_lit1_d19, 3, 1, 1, [0x9b, 0x00, 0xcc], 19);
+kb1_harness!(kb1_back_lit1_d20, 3, 1, 2, [0x9b, 0x00, 0x2c], 20);
+kb1_harness!(kb1_back_lit1_d21, 3, 1, 2, [0x9b, 0x00, 0xac], 21);
+kb1_harness!(kb1_back_lit1_d22, 3, 1, 2, [0x9b, 0x00, 0x6c], 22);
+kb1_harness!(kb1_back_lit1_d23, 3, 1, 2, [0x9b, 0x00, 0xec], 23);
+kb1_harness!(kb1_back_lit1_d24, 3, 1, 2, [0x9b, 0x00, 0x1c], 24);
+kb1_harness!(kb1_back_lit1_d25, 3, 1, 2, [0x9b, 0x00, 0x9c], 25);
+kb1_harness!(kb1_back_lit1_d26, 3, 1, 2, [0x9b, 0x00, 0x5c], 26);
+kb1_harness!(kb1_back_lit1_d27, 3, 1, 2, [0x9b, 0x00, 0xdc], 27);
+kb1_harness!(kb1_back_lit1_d28, 3, 1, 2, [0x9b, 0x00, 0x3c], 28);
+kb1_harness!(kb1_back_lit1_d29, 3, 1, 2, [0x9b, 0x00, 0xbc], 29);
+kb1_harness!(kb1_back_lit1_d30, 3, 1, 0, [0x9b, 0x00, 0x7c], 30);
+kb1_harness!(kb1_back_lit1_d31, 3, 1, 0, [0x9b, 0x00, 0xfc], 31);
+kb1_harness!(kb1_back_lit9_d0, 12, 9, 0, [0x9b, 0x30, 0x71, 0xd2, 0xe4, 0x29, 0x53, 0xa7, 0x4d, 0x9f, 0x01, 0x04], 0);
+kb1_harness!(kb1_back_lit9_d1, 12, 9, 0, [0x9b, 0x30, 0x71, 0xd2, 0xe4, 0x29, 0x53, 0xa7, 0x4d, 0x9f, 0x01, 0x84], 1);
+kb1_harness!(kb1_back_lit9_d2, 12, 9, 0, [0x9b, 0x30, 0x71, 0xd2, 0xe4, 0x29, 0x53, 0xa7, 0x4d, 0x9f, 0x01, 0x44], 2);
+kb1_harness!(kb1_back_lit9_d3, 12, 9, 0, [0x9b, 0x30, 0x71, 0xd2, 0xe4, 0x29, 0x53, 0xa7, 0x4d, 0x9f, 0x01, 0xc4], 3);
+kb1_harness!(kb1_back_lit9_d4, 12, 9, 1, [0x9b, 0x30, 0x71, 0xd2, 0xe4, 0x29, 0x53, 0xa7, 0x4d, 0x9f, 0x01, 0x24], 4);
+kb1_harness!(kb1_back_lit9_d5, 12, 9, 1, [0x9b, 0x30, 0x71, 0xd2, 0xe4, 0x29, 0x53, 0xa7, 0x4d, 0x9f, 0x01, 0xa4], 5);
+kb1_harness!(kb1_back_lit9_d6, 12, 9, 1, [0x9b, 0x30, 0x71, 0xd2, 0xe4, 0x29, 0x53, 0xa7, 0x4d, 0x9f, 0x01, 0x64], 6);
+kb1_harness!(kb1_back_lit9_d7, 12, 9, 1, [0x9b, 0x30, 0x71, 0xd2, 0xe4, 0x29, 0x53, 0xa7, 0x4d, 0x9f, 0x01, 0xe4], 7);
+
+// ---------------------------------------------------------------------------------------------------------------
+// after the window has been flushed once: a non-final stored block of exactly 256 bytes (data[k] = k) fills the window,
+// then the final fixed block (1 literal, length 3, distance code D + symbolic extra bits).  Every distance up to the
+// window size is valid now and must copy from the ring; larger ones must be rejected.
+const fn wrapped_input(tail: [u8; 3]) -> [u8; 266] {
+    let mut a = [0u8; 266];
+    a[0] = 0x00; // BFINAL = 0, BTYPE = 00
+    a[1] = 0x00;
+    a[2] = 0x01; // LEN = 256
+    a[3] = 0xff;
+    a[4] = 0xfe; // NLEN
+    let mut k = 0;
+    while k < 256 {
+        a[5 + k] = k as u8;
+        k += 1;
+    }
+    a[261] = tail[0];
+    a[262] = tail[1];
+    a[263] = tail[2];
+    a
+}
+
+fn back_wrapped_instance<const NSYM: usize>(input0: [u8; 266], dsym: usize) {
+    let mut input = input0;
+    let s0: u8 = if NSYM >= 1 { kani::any() } else { 0 };
+    let s1: u8 = if NSYM >= 2 { kani::any() } else { 0 };
+    input[264] = s0;
+    input[265] = s1;
+    let mut win = [0xEEu8; 256];
+    let mut state = State::new(&[], Writer::new(&mut []));
+    state.window = unsafe { Window::from_raw_parts(win.as_mut_ptr(), 256) };
+    state.wbits = 8;
+    state.flags.update(Flags::SANE, true);
+    let mut ind = InDesc { ptr: input.as_ptr(), len: 264 + NSYM as u32, first: 264 + NSYM as u32, calls: 0 };
+    let mut outd = OutDesc { total: 0, calls: 0, last_ptr: 0, last_len: 0 };
+    let mut strm = typed_stream(unsafe { &mut *(&mut state as *mut State) });
+    let rc = unsafe {
+        back(
+            &mut strm,
+            in_cb,
+            &mut ind as *mut _ as *mut core::ffi::c_void,
+            out_cb,
+            &mut outd as *mut _ as *mut core::ffi::c_void,
+        )
+    };
+    core::mem::forget(strm);
+    core::mem::forget(state);
+    assert!(matches!(rc, ReturnCode::StreamEnd | ReturnCode::DataError | ReturnCode::BufError));
+    assert!(outd.calls >= 1 && outd.last_ptr == win.as_ptr() as usize && outd.last_len <= 256);
+    let v = s0 as u32 | (s1 as u32) << 8;
+    let dist = (DBASE[dsym] + (v & ((1 << DEXT[dsym]) - 1))) as usize;
+    if dist > 256 {
+        // beyond the window: rejected; the stored block and the literal were delivered
+        assert!(rc == ReturnCode::DataError && outd.total == 257);
+    } else {
+        // valid for this window: inflate would accept it, so must inflateBack, and copy from the ring
+        assert!(outd.total >= 260, "a distance within the window is accepted after the window has wrapped");
+        // history in stream order: H[k] = k for the 256 stored bytes, H[256] = the literal 0x90, H[257 + t] = H[257 + t - dist];
+        // stream position k lives in window slot k % 256
+        let mut m = [0u8; 3];
+        let mut t = 0;
+        while t < 3 {
+            let src = 257 + t - dist;
+            m[t] = if src < 256 {
+                src as u8
+            } else if src == 256 {
+                0x90
+            } else {
+                m[src - 257]
+            };
+            assert!(win[(257 + t) % 256] == m[t]);
+            t += 1;
+        }
+        assert!(win[0] == 0x90);
+    }
+    kani::cover!(rc == ReturnCode::DataError);
+    kani::cover!(DBASE[dsym] > 256 || outd.total >= 260);
+}
+
+macro_rules! kb1_wrapped_harness {
+    ($name:ident, $nsym:expr, $tail:expr, $dsym:expr) => {
+        #[kani::proof]
+        #[kani::unwind(5)]
+        #[kani::stub(crate::inflate::inftrees::inflate_table, stub_table_unreachable)]
+        #[kani::stub(core::fmt::write, stub_fmt_write)]
+        #[kani::stub(core::panicking::panic_nounwind, stub_pn)]
+        #[kani::stub(core::panicking::panic_nounwind_fmt, stub_pnf)]
+        #[kani::stub(crate::inflate::infback::inflate_fast_back, stub_fast_back_unreachable)]
+        #[kani::stub(<[u16]>::fill, stub_fill_unreachable)]
+        fn $name() {
+            const INPUT: [u8; 266] = wrapped_input($tail); // evaluated by rustc, no run-time loop
+            back_wrapped_instance::<$nsym>(INPUT, $dsym);
+        }
+    };
+}
+kb1_wrapped_harness!(kb1_back_wrapped_d0, 0, [0x9b, 0x00, 0x04], 0);
+kb1_wrapped_harness!(kb1_back_wrapped_d4, 1, [0x9b, 0x00, 0x24], 4);
+kb1_wrapped_harness!(kb1_back_wrapped_d14, 1, [0x9b, 0x00, 0x74], 14);
+kb1_wrapped_harness!(kb1_back_wrapped_d15, 1, [0x9b, 0x00, 0xf4], 15);
+kb1_wrapped_harness!(kb1_back_wrapped_d16, 1, [0x9b, 0x00, 0x0c], 16);
